@@ -65,6 +65,15 @@ def concept_case(out: Outcome, rng, cls: str, with_cb: bool, protocol: int, thor
         if dets.obs(cls, loaded) != dets.obs(cls, a.det) or loaded.status != a.det.status:
             out.violation(f"{cls}: observable state of the loaded detector differs from the original right after load", rep)
             return
+        # everything the object holds (private attributes, whole arrays and tables - BOCD's run-length table, queues, buckets), structurally
+        from props.c14 import snap_val
+        keep = lambda d: {kk: vv for kk, vv in vars(d).items() if kk not in ("_callbacks",)}  # noqa: E731
+        try:
+            if snap_val(keep(loaded)) != snap_val(keep(a.det)):
+                out.violation(f"{cls}: the loaded detector does not hold what the saved one held (structural comparison of all attributes)", rep)
+                return
+        except RecursionError:
+            pass
         if with_cb and (loaded.callbacks[0].detector is not loaded):
             out.violation(f"{cls}: the loaded callback no longer refers to the loaded detector", rep)
             return
